@@ -107,10 +107,24 @@ def faceAdj (n0 n1 : Nat) (i j : Nat) : Bool :=
   | some (x, y) => j == x * n1 + y || j == x * n1 + (y + 1) || j == (x + 1) * n1 + y || j == (x + 1) * n1 + (y + 1)
   | none => false
 
+/-- the vertex-vertex pairing of `OddFaceCenteredLattice.adjacency_matrix`: as `rollPair`, but its periodic branch
+writes every pair (it has no `i != j` test; the constructor refuses a periodic axis of odd extent instead) -/
+def rollPairRaw (n B : Nat) (per plus : Bool) (i j : Nat) : Bool :=
+  let k := (i / B) % n
+  (if per then true else keptByCut n plus k) && (j + k * B == i + rollSrc n plus k * B)
+
+def gridAdjRaw (shape : List Nat) (pbc : List Bool) (i j : Nat) : Bool :=
+  decide (i < sprod shape) && decide (j < sprod shape) &&
+    (List.range shape.length).any fun d =>
+      let n := shape.getD d 1
+      let B := sprod (shape.drop (d + 1))
+      let per := pbc.getD d false
+      rollPairRaw n B per false i j || rollPairRaw n B per true i j
+
 def ofcAdj (n0 n1 : Nat) (pbc : List Bool) (i j : Nat) : Bool :=
   let nv := n0 * n1
   decide (i < ofcNsites n0 n1) && decide (j < ofcNsites n0 n1) &&
-    (gridAdj [n0, n1] pbc i j ||
+    (gridAdjRaw [n0, n1] pbc i j ||
      (decide (nv ≤ i) && decide (j < nv) && faceAdj n0 n1 i j) ||
      (decide (nv ≤ j) && decide (i < nv) && faceAdj n0 n1 j i))
 
